@@ -144,7 +144,7 @@ CHECKS = {
         "crash_is_violation": True,
         "quick": cfgs(["dflt", "rdxfmt", "cmprdxfmt"], features="catalogue") + cfgs(["rdxfmt"], profile="reldbg", features="catalogue"),
         "thorough": cfgs(["dflt", "fmt", "rdxfmt", "cmprdxfmt", "cmp"], features="catalogue") + cfgs(["dflt", "rdxfmt", "cmprdxfmt"], profile="reldbg", features="catalogue"),
-        "rule": "MAG: 9 mantissa shapes x every exponent in a window wider than the float range (+-(1250/log2(base)+40)) and at the i32/i64/u64 limits, for the "
+        "rule": "SPEC: nan/NaN/inf/Inf/infinity/INFINITY with 0, 1 or 2 separators at every position x signs x trailing junk, every catalogued format with radix <= 18; MAG: 9 mantissa shapes x every exponent in a window wider than the float range (+-(1250/log2(base)+40)) and at the i32/i64/u64 limits, for the "
                 "STANDARD and radix formats; every raw byte string up to length 2 (+ every third byte after a byte that can start a number; thorough: all 256^3) through the default "
                 "API of all 14 types; every string of <= L tokens over a per-format alphabet {+,-,0,1,max digit,point,exponent char in both cases,"
                 "separator,prefix,suffix,n,i,comma} and long digit strings (3..41 and 400..1200 digits, one or two separators at every position) through "
@@ -183,7 +183,7 @@ CHECKS = {
         "bin": "c13",
         "quick": cfgs(["rdxfmt"], features="catalogue"),
         "thorough": cfgs(["rdxfmt", "fmt", "cmprdxfmt"], features="catalogue"),
-        "rule": "formats: each of the 15 valid internal/leading/trailing/consecutive flag combinations on the integer, fraction or exponent component alone "
+        "rule": "exact halfway decimal expansions of 6 f64 and 4 f32 values in three spellings with a fraction (big-integer slow path through the skipping iterators) with one separator run at every position; formats: each of the 15 valid internal/leading/trailing/consecutive flag combinations on the integer, fraction or exponent component alone "
                 "and on all three (60), plus other separator bytes (',', quote, a letter), hex with binary exponent, hex/decimal with hexadecimal exponent "
                 "digits, separator+prefix+suffix, integer-only separators (8); types f64, f32, i64, u128. (a) every string of <= L tokens over "
                 "{-,1,0,max digit,separator,point,exponent,x} and long numbers (1..40 digits per component, exact halfway strings) with a separator run of "
@@ -198,7 +198,7 @@ CHECKS = {
         "bin": "c15",
         "quick": cfgs(["dflt", "rdxfmt"], features="catalogue"),
         "thorough": cfgs(["dflt", "cmp", "fmt", "rdxfmt", "cmprdxfmt"], features="catalogue"),
-        "rule": "parse: 245 option triples (nan x inf x infinity from {default, None, 1 letter, other case, 50 letters, equal strings, inf a prefix of "
+        "rule": "BYTESUB: every byte value 0..255 at every position of the default special strings (x signs x formats); near-miss inputs include every byte at Hamming distance 1 from each letter and from its other-case form; parse: 245 option triples (nan x inf x infinity from {default, None, 1 letter, other case, 50 letters, equal strings, inf a prefix of "
                 "infinity}) x formats {STANDARD, no_special, case_sensitive_special, special_digit_separator and their valid combinations} x inputs near "
                 "every configured and default special string (every prefix, one trailing byte from {x,0,i,n,_,.,e,y}, every single case flip, all upper / "
                 "lower, every single substitution by @ ` [ { 0, a separator run of length 1 and 2 at every position) x sign {none,+,-} x {f32,f64} x "
@@ -246,7 +246,7 @@ CHECKS = {
         "bin": "c17",
         "quick": cfgs(["dflt", "rdxfmt"], features="facade"),
         "thorough": cfgs(["dflt", "cmp", "rdx", "rdxfmt", "cmprdxfmt"], features="facade"),
-        "rule": "OPTB: every byte value 0..255 in every byte-valued write-float option (decimal point, exponent character, each position of 1..3-byte NaN and infinity strings); whatever build() accepts is used to write NaN, +-inf and finite values: all output bytes < 0x80 and facade = core; float values (binade borders, extremes, specials, decimal landmarks, both signs) x formats {STANDARD, radix 2/16/36/3, required signs + "
+        "rule": "INTOPT: boundary values (0, +-1, radix^k-1, radix^k, radix^k+1, type limits) of all 12 integer types x facade formats (STANDARD, radix 2/16/32/3/36, required_mantissa_sign in radix 10 and 2): to_string_with_options = write_with_options into exactly buffer_size_const bytes = reference numeral; OPTB: every byte value 0..255 in every byte-valued write-float option (decimal point, exponent character, each position of 1..3-byte NaN and infinity strings); whatever build() accepts is used to write NaN, +-inf and finite values: all output bytes < 0x80 and facade = core; float values (binade borders, extremes, specials, decimal landmarks, both signs) x formats {STANDARD, radix 2/16/36/3, required signs + "
                 "exponent notation, no exponent notation} x write options (OPT_w level 0, 50-letter special strings, and every ordered pair of valid "
                 "punctuation bytes - printable ASCII, not a digit of the radix, not a sign - as decimal point and exponent): lexical::to_string* bytes == "
                 "lexical_core::write* bytes, no byte >= 0x80, a panic on one side iff on the other; every string of <= L tokens over {+,-,0,1,.,exponent,x,"
